@@ -19,14 +19,14 @@ func init() {
 		ID: "C06", Level: "exploration", Primary: "pipeline_shapes", EvalCount: "requests_numbered",
 		Rule: "one pipeline = N (1..256) requests of mixed operations on one connection, message IDs a random permutation-like draw (so Request.ID cannot be confused with the message ID), written in one " +
 			"segment or dribbled; some requests have no route (gaps in the observed numbering); a PRNG-chosen subset of handlers parks on a rendezvous: handler i returns only after handler i+d " +
-			"(or a handler on a second connection) has entered; a second family of pipelines performs a real StartTLS upgrade in the middle (numbering must continue across it). Oracle: Request.ID == 1-based position in the client's send order for every handler invocation; every rendezvous completes. " +
+			"(or a handler on a second connection) has entered; a second family of pipelines performs a real StartTLS upgrade in the middle (numbering must continue across it); a third has its first handler blocked inside Write by a client that does not read (later handlers must still be entered). Oracle: Request.ID == 1-based position in the client's send order for every handler invocation; every rendezvous completes. " +
 			"distinct_nontrivial = distinct (N, operation mix, rendezvous pattern, write mode) signatures with at least one satisfied rendezvous",
 		Assume: []string{"extended requests are identified by the exact-name route that served them (their message ID is not exposed to handlers)",
 			"a rendezvous that does not complete within the watchdog is judged only by the recorded enter/exit order (serial dispatch), otherwise inconclusive"},
 		Phases: func(tier string, seed int64) []Phase {
 			return []Phase{{Name: "pipelines", Run: c06Run}}
 		},
-		MinObserved: []string{"requests_numbered", "rendezvous_satisfied", "cross_connection_rendezvous_satisfied", "pipelines_with_starttls_upgrade"},
+		MinObserved: []string{"requests_numbered", "rendezvous_satisfied", "cross_connection_rendezvous_satisfied", "pipelines_with_starttls_upgrade", "pipelines_with_a_handler_blocked_in_write"},
 	})
 }
 
@@ -497,8 +497,96 @@ func c06StartTLS(c *Ctx, r *Rand, pki *PKI, idx int) {
 	c.Distinct("pipeline_shapes", fmt.Sprintf("starttls/%d/%d", k1, k2))
 }
 
+// c06BlockedInWrite: the first handler blocks inside ResponseWriter.Write (the client pipelines and does not read);
+// the later requests of the pipeline must still be dispatched: their handlers must be ENTERED while the first one is
+// blocked (bounded progress, B = 10s), only then does the client start reading.
+func c06BlockedInWrite(c *Ctx, r *Rand, idx int) {
+	var entered atomic.Int64
+	var firstBlocked atomic.Bool
+	blob := strings.Repeat("w", 64<<10)
+	later := 2 + r.Intn(6)
+	srv, err := startSrv(SrvCfg{}, func(m *gldap.Mux) {
+		m.Search(func(w *gldap.ResponseWriter, req *gldap.Request) {
+			sm, _ := req.GetSearchMessage()
+			if sm.BaseDN == "big" {
+				firstBlocked.Store(true)
+				for i := 0; i < 200; i++ {
+					e := req.NewSearchResponseEntry("cn=e")
+					e.AddAttribute("b", []string{blob})
+					if w.Write(e) != nil {
+						return
+					}
+				}
+			} else {
+				entered.Add(1)
+			}
+			w.Write(req.NewSearchDoneResponse(gldap.WithResponseCode(0)))
+		})
+		m.Delete(func(w *gldap.ResponseWriter, req *gldap.Request) {
+			entered.Add(1)
+			w.Write(req.NewResponse(gldap.WithApplicationCode(gldap.ApplicationDelResponse), gldap.WithResponseCode(0)))
+		})
+	})
+	if err != nil {
+		c.Inconclusive("server start: " + err.Error())
+		return
+	}
+	defer srv.StopWithin(patience)
+	cn, err := net.Dial("tcp", srv.Addr)
+	if err != nil {
+		c.Inconclusive("dial: " + err.Error())
+		return
+	}
+	defer cn.Close()
+	search := func(id int64, base string) []byte {
+		return sber.Message(id, sber.Search{Base: []byte(base), Scope: 2, Filter: sber.PresentFilter("cn"), Attrs: [][]byte{}}.Node(), nil).Encode()
+	}
+	all := search(1, "big")
+	for i := 0; i < later; i++ {
+		if i%2 == 0 {
+			all = append(all, search(int64(2+i), "x")...)
+		} else {
+			all = append(all, sber.Message(int64(2+i), sber.DelRequest([]byte("cn=x")), nil).Encode()...)
+		}
+	}
+	if r.Bool() {
+		cn.Write(all)
+	} else {
+		// the big request first, the rest only once its handler is surely stuck in Write
+		cn.Write(all[:len(search(1, "big"))])
+		time.Sleep(150 * time.Millisecond)
+		cn.Write(all[len(search(1, "big")):])
+	}
+	ok := false
+	for dl := time.Now().Add(10 * time.Second); time.Now().Before(dl); time.Sleep(time.Millisecond) {
+		if entered.Load() == int64(later) {
+			ok = true
+			break
+		}
+	}
+	c.Count("pipelines_with_a_handler_blocked_in_write", 1)
+	c.Count("requests_numbered", int64(later))
+	if !ok {
+		c.Violate("a blocked handler delays the dispatch of later requests", fmt.Sprintf("the first handler is blocked in Write (client not reading); after 10s only %d of the %d later requests of the pipeline had been handed to their handlers", entered.Load(), later),
+			map[string]any{"later_requests": later, "first_handler_started": firstBlocked.Load()})
+	} else {
+		c.Distinct("pipeline_shapes", fmt.Sprintf("blocked-in-write/%d", later))
+	}
+	// let the client go: drain
+	cn.SetReadDeadline(time.Now().Add(200 * time.Millisecond))
+	buf := make([]byte, 64<<10)
+	for {
+		if _, err := cn.Read(buf); err != nil {
+			break
+		}
+	}
+}
+
 func c06Run(c *Ctx) {
 	pki := newPKI()
+	for i := 0; i < c.N(12, 200); i++ {
+		c06BlockedInWrite(c, c.Rng.Sub(fmt.Sprintf("bw%d", i)), i)
+	}
 	for i := 0; i < c.N(40, 600); i++ {
 		c06StartTLS(c, c.Rng.Sub(fmt.Sprintf("tls%d", i)), pki, i)
 	}
